@@ -1,34 +1,29 @@
-/* probe: growing array realloc'd inside loop; is_fresh in loop invariant? */
+/* probe: in-place realloc model, pointer pinned by loop_entry */
 #include "verif_common.h"
 #include <stdlib.h>
 #include <string.h>
-#if P_INV == 1
-#define INV_ARR __CPROVER_is_fresh(arr, sizeof(int) * cap)
-#else
-#define INV_ARR __CPROVER_w_ok(arr, sizeof(int) * cap)
-#endif
-
+#define CAPMAX 4096
 void *my_realloc(void *p, size_t n)
-__CPROVER_requires(1)
+__CPROVER_requires(__CPROVER_r_ok(p, 1) && __CPROVER_POINTER_OFFSET(p) == 0 && n <= sizeof(int) * CAPMAX)
 __CPROVER_assigns()
-__CPROVER_ensures(__CPROVER_is_fresh(__CPROVER_return_value, n));
+__CPROVER_ensures(__CPROVER_return_value == p);
 
 void *my_alloc(size_t n)
 __CPROVER_requires(1)
 __CPROVER_assigns()
-__CPROVER_ensures(__CPROVER_is_fresh(__CPROVER_return_value, n));
+__CPROVER_ensures(__CPROVER_is_fresh(__CPROVER_return_value, sizeof(int) * CAPMAX));
 
 int *f(const char *s, unsigned len, unsigned *out)
 __CPROVER_requires(len <= 1000 && __CPROVER_is_fresh(s, len + 1) && s[len] == 0 && __CPROVER_is_fresh(out, sizeof(*out)))
 __CPROVER_assigns(*out)
-__CPROVER_ensures(__CPROVER_is_fresh(__CPROVER_return_value, sizeof(int) * (*out)))
+__CPROVER_ensures(__CPROVER_r_ok(__CPROVER_return_value, sizeof(int) * (*out)))
 {
     unsigned i = 0; unsigned cap = 4, cnt = 0;
     int *arr = my_alloc(sizeof(int) * cap);
     while (s[i] != 0)
     __CPROVER_assigns(i, cap, cnt, arr, __CPROVER_object_whole(arr))
-    __CPROVER_loop_invariant(i <= len && cnt <= i && cnt < cap && cap <= 4096)
-    __CPROVER_loop_invariant(INV_ARR)
+    __CPROVER_loop_invariant(i <= len && cnt <= i && cnt < cap && cap <= 2 * cnt + 4)
+    __CPROVER_loop_invariant(arr == __CPROVER_loop_entry(arr))
     __CPROVER_decreases(len - i)
     {
         if (cnt >= cap - 1) { cap *= 2; arr = my_realloc(arr, sizeof(int) * cap); }
